@@ -434,9 +434,9 @@ PROPS.update({
         spec_fields=[r'.*'], model_fields=DEGEN_MODEL, require_spec_fields=False, custom=degen_custom,
         nontrivial=lambda req, I: True,
         hist=lambda req, I: graph_hist(req, I) + ['calls.%d' % sum(len(v.split()) for v in I.values())],
-        rule='exhaustive: 8 graph kinds x 12 degenerate shapes (empty, single node, two isolated nodes, single edge, path, triangle, '
-             'parallel edges, lone self-loop, reciprocal pair with self-loop, self-loop with parallel edges, edge plus isolated node, mixed) '
-             'x 3 weight modes x the duplicate-edge policies under which the shape can be built; ~100 public functions, arguments = every name of the graph plus one absent name (functions with an error '
+        rule='exhaustive: 8 graph kinds x 18 degenerate shapes (empty, single node, two isolated nodes, single edge, path, triangle, '
+             'parallel edges, lone self-loop, reciprocal pair with self-loop, self-loop with parallel edges, edge plus isolated node, mixed; six larger ones: 6 isolated nodes, 6 nodes with (parallel) self-loops only, 9 nodes in three components, 22 isolated nodes, 22 nodes with one edge and one self-loop, a 23-node path - above the rayon threshold) '
+             'x 3 weight modes x the duplicate-edge policies under which the shape can be built; ~100 public functions, arguments = every name of the graph (first two and last of a larger graph) plus one absent name (functions with an error '
              'channel), every ordered pair, four node sets; each call under catch_unwind, Louvain and eigenvector under a 5 s watchdog; '
              'harness built with overflow-checks and debug-assertions on (thorough: also without); every case counts as non-trivial',
         assumptions=COMMON_ASSUME[:2] + ['coverage of the public API is re-checked against `pub fn` in src/ on every run (tools/pubfns_covered.txt)'],
